@@ -257,6 +257,69 @@ class SSeq:
         return 'SSeq(%s, len=%r, off=%r)' % (self.name, self.length, self.off)
 
 
+class SMutSeq(SSeq):
+    """bytearray of symbolic length: cell stores update the array term (functional store)"""
+    tname = 'bytearray'
+    mutable = True
+
+    def __setitem__(self, idx, v):
+        c = cur()
+        if isinstance(idx, slice):
+            raise Unsupported('slice store into symbolic-length bytearray')
+        n = self.length
+        neg = (idx < 0)
+        if neg is True or (neg is not False and c.decide(neg)):
+            idx = idx + n
+        ok = s_and(idx >= 0, idx < n)
+        if ok is not True:
+            if ok is False or not c.decide(ok):
+                raise IndexError('bytearray index out of range')
+        if isinstance(v, SBool):
+            v = SInt(_z(v), 0, 1)
+        inr = s_and(v >= 0, v <= 255)
+        if inr is not True:
+            if inr is False or not c.decide(inr):
+                raise ValueError('byte must be in range(0, 256)')
+        self.arr = z3.Store(self.arr, _z(self.off + idx), _z(v))
+        c.add_index_term(self.off + idx)
+
+
+class SMatrix(SSeq):
+    """square matrix of symbolic size whose cells are arbitrary values of [elem_lo, elem_hi]:
+    a sequence of `length` rows, row r being the array M[r] of `length` cells"""
+    tname = 'tuple'
+
+    def __init__(self, name, size, elem_lo=0, elem_hi=1):
+        self.M = z3.Array(fresh_name(name), z3.IntSort(), z3.ArraySort(z3.IntSort(), z3.IntSort()))
+        SSeq.__init__(self, None, size, 0, elem_lo, elem_hi, name)
+
+    def row(self, r):
+        return SSeq(z3.Select(self.M, _z(r)), self.length, 0, self.elem_lo, self.elem_hi, '%s_row' % self.name)
+
+    def cell(self, r, c):
+        return SInt(z3.Select(z3.Select(self.M, _z(r)), _z(c)), self.elem_lo, self.elem_hi)
+
+    def at(self, k):
+        return self.row(k)
+
+    def raw_abs(self, p):
+        raise Unsupported('raw cell of a matrix')
+
+    def __getitem__(self, idx):
+        c = cur()
+        if isinstance(idx, slice):
+            raise Unsupported('slice of symbolic matrix')
+        n = self.length
+        neg = (idx < 0)
+        if neg is True or (neg is not False and c.decide(neg)):
+            idx = idx + n
+        ok = s_and(idx >= 0, idx < n)
+        if ok is not True:
+            if ok is False or not c.decide(ok):
+                raise IndexError('index out of range')
+        return self.row(idx)
+
+
 class SIter:
     """iterator over an SSeq with symbolic position"""
 
